@@ -11,10 +11,11 @@ def decorate(r, s):
     out = []
     for c in s:
         if r.random() < 0.2:
-            out.append(r.choice(" \t \n"))
+            # what str.split() removes: blanks, the ASCII controls FS GS RS US, and the Unicode spaces
+            out.append(r.choice(" \t \n") if r.random() < 0.6 else r.choice(" \r\x0b\x0c\x1c\x1d\x1e\x1f\x85\xa0\u2003\u3000"))
         out.append(c)
     t = "".join(out)
-    t = r.choice(["", " ", "  ", "\t"]) + t + r.choice(["", " ", "\n"])
+    t = r.choice(["", " ", "  ", "\t"]) + t + r.choice(["", " ", "\n", "\xa0", "\u3000"])
     if r.random() < 0.5:
         t = r.choice(["v", "V"]) + t
     return t
